@@ -304,6 +304,8 @@ type FieldSpec struct {
 	Default bool   `json:"default,omitempty"`
 	Req     int    `json:"req,omitempty"` // 0 none, 1 on the first (highest-priority) tag, 2 on the last tag, 3 on all tags
 	Rev     bool   `json:"rev,omitempty"` // tags written in reverse order in the tag string
+	// JSONSkip: the field (which does not name the json source) carries `json:"-"`: the body is no source for it
+	JSONSkip bool `json:"json_skip,omitempty"`
 }
 
 type TypeSpec struct {
@@ -323,6 +325,9 @@ type ReqSpec struct {
 	// NoCL: the request object is put together with SetBody / SetRequestURI instead of being read from the wire, so the
 	// header records no Content-Length (as for a chunked body that was streamed)
 	NoCL bool `json:"no_cl,omitempty"`
+	// GoName: the JSON body carries, for every field tagged json:"-", a member named after the Go field (F0, f1 ...) with a
+	// valid value: it must neither be bound nor count as "present"
+	GoName bool `json:"go_name,omitempty"`
 }
 
 var jsonCT = []string{"application/json", "Application/JSON", "application/JSON; charset=utf-8"}
@@ -363,6 +368,9 @@ func (f FieldSpec) tagString(key string) string {
 		for i, j := 0, len(parts)-1; i < j; i, j = i+1, j-1 {
 			parts[i], parts[j] = parts[j], parts[i]
 		}
+	}
+	if f.JSONSkip && !f.has(srcJSON) {
+		parts = append(parts, `json:"-"`)
 	}
 	if f.Default {
 		parts = append(parts, `default:"`+defaultTag(kinds[f.Kind])+`"`)
@@ -433,6 +441,22 @@ func realize(t TypeSpec, r ReqSpec) realReq {
 	}
 	if form != nil && js != nil {
 		panic("c15: request with form and json body")
+	}
+	if r.GoName {
+		for i, f := range t.Fields {
+			if f.JSONSkip && !f.has(srcJSON) && f.Kind != "hook" {
+				k := kinds[f.Kind]
+				lit := jsonLit(k.base, k.base.valid[0])
+				if k.shape == shSlice {
+					lit = "[" + lit + "]"
+				}
+				name := "F" + strconv.Itoa(i)
+				if i%2 == 1 {
+					name = "f" + strconv.Itoa(i)
+				}
+				js = append(js, strconv.Quote(name)+":"+lit)
+			}
+		}
 	}
 	target := "/x"
 	if query != nil {
@@ -1023,6 +1047,38 @@ func phaseSingle(c *mc.Ctx, kindNames []string, reqModes []int, rots []int, mult
 	})
 	c.Add("types", types)
 	c.Extra("single_field_types", types)
+}
+
+// phase 1b: fields tagged json:"-" (the body is no source for them) next to a JSON body that carries a member of the
+// field's Go name: required / default / the other sources decide as if that member were not there
+func phaseJSONSkip(c *mc.Ctx, kindNames []string, reqModes []int) {
+	masks := []int{1 << srcQuery, 1 << srcHeader, 1<<srcQuery | 1<<srcHeader, 1 << srcPath, 1<<srcCookie | 1<<srcQuery}
+	c.ParallelFor(len(kindNames)*len(masks), func(i int) {
+		k := kinds[kindNames[i/len(masks)]]
+		mask := masks[i%len(masks)]
+		a := newAcct()
+		defer a.flush(c)
+		var reqs []ReqSpec
+		for _, present := range []int{0, mask, mask & -mask} {
+			for _, gn := range []bool{false, true} {
+				reqs = append(reqs, ReqSpec{Vals: [][][]string{fieldVals(k, present, 0, 0, -1, 0)}, GoName: gn})
+			}
+		}
+		for _, def := range []bool{false, true} {
+			for _, rq := range reqModes {
+				t := TypeSpec{Fields: []FieldSpec{{Kind: k.name, Tags: mask, Default: def, Req: rq, JSONSkip: true}}}
+				rt := t.rtype()
+				for j := range reqs {
+					r := reqs[j]
+					rr := realize(t, r)
+					a.nontriv += 2
+					cas := func() Case { return Case{Mode: "seq", Steps: []Step{{Type: t, Req: r, API: j % 2}}, Global: true} }
+					bindJudge(c, a, binding.NewDefaultBinder(nil), j%2, rt, t, r, rr, "jsonskip/cold", cas)
+					bindJudge(c, a, binding.DefaultBinder(), j%2, rt, t, r, rr, "jsonskip/warm", cas)
+				}
+			}
+		}
+	})
 }
 
 // ---------------------------------------------------------------------------------------
@@ -1616,6 +1672,7 @@ func run(c *mc.Ctx) {
 		"reference": []string{refField(ex2.Fields[0], exr2.Vals[0])[0].val, refField(ex2.Fields[1], exr2.Vals[1])[0].val}})
 
 	phaseSingle(c, kn, reqModes, rots, true)
+	phaseJSONSkip(c, kn, reqModes)
 	lap("single")
 	c.Extra("kinds", len(kn))
 	c.Extra("requests_per_single_field_type", len(singleReqs(kinds["int8"], rots, true)))
